@@ -51,7 +51,9 @@ pub fn cases(thorough: bool, seed: u64) -> Vec<Params> {
     // large signer sets (code paths specialised by size): everybody signs, the shares at three
     // positions (first, middle, last: aux = bitmask over positions) are adversarial, the rest honest
     for (n, t) in crate::large_pairs(thorough) {
-        if n > 40 {
+        // detection forks and entailment queries over 40 signers with a degree-32 polynomial cost
+        // minutes per path (measured 525 s per case): the large shapes here keep t small
+        if n > 34 || (n > 17 && t > 2) {
             continue;
         }
         let k = n as u64;
